@@ -93,7 +93,9 @@ class Observer:
         exp_ack = 1 if pend is not None else 0
         if outs[self.pack] != exp_ack:
             return dict(msg=f"ack={outs[self.pack]} expected {exp_ack}", signature=dict(kind="oracle", what="ack")), obs
-        if outs[self.pmem] != mem:
+        # (the array is compared whenever no transfer is pending: the cycle in which a write lands between
+        # presentation and acknowledge is not fixed by the property)
+        if pend is None and outs[self.pmem] != mem:
             return dict(msg=f"memory is {outs[self.pmem]}, expected {mem}", signature=dict(kind="oracle", what="memory")), obs
         if pend is not None and pend[0] == 0 and outs[self.pdat] != pend[1]:
             return dict(msg=f"read data {outs[self.pdat]:#x} with ack, expected {pend[1]:#x}",
